@@ -160,8 +160,8 @@ mod verif_kani_resp_codec {
         check_scalars::<5>();
     }
     // @harness: h_codec_scalars_n7
-    // @bound: all byte strings of length 1..=7 over the 18-symbol alphabet; scalar frame types (+ - : $) via the real parse_* fns; unwind 9; measured CBMC time ~405 s (machine under load)
-    // @tier: thorough
+    // @bound: all byte strings of length 1..=7 over the 18-symbol alphabet; scalar frame types (+ - : $) via the real parse_* fns; unwind 9; measured CBMC time ~405 s before the CR-LF pair rule made find_crlf a loop; now beyond the 900 s limit: manual tier
+    // @tier: manual
     // @complete: false
     // @props: C15
     #[kani::proof]
@@ -176,8 +176,8 @@ mod verif_kani_resp_codec {
         check_scalars::<7>();
     }
     // @harness: h_codec_scalars_n8
-    // @bound: all byte strings of length 1..=8 over the 18-symbol alphabet; scalar frame types (+ - : $) via the real parse_* fns; unwind 10; measured CBMC time ~685 s (machine under load)
-    // @tier: thorough
+    // @bound: all byte strings of length 1..=8 over the 18-symbol alphabet; scalar frame types (+ - : $) via the real parse_* fns; unwind 10; measured CBMC time ~685 s before the CR-LF pair rule made find_crlf a loop; now beyond the 900 s limit: manual tier
+    // @tier: manual
     // @complete: false
     // @props: C15
     #[kani::proof]
